@@ -42,6 +42,9 @@ mod statistic;
 mod tfc_achetype;
 mod visualization;
 
+#[cfg(feature = "verif")]
+pub mod verif;
+
 #[derive(
     Debug,
     Clone,
